@@ -52,8 +52,8 @@ int main(int argc, char **argv) {
   sexp_gc_var5(b, s, r, b2, s2);
   sexp_gc_preserve5(ctx, b, s, r, b2, s2);
   while (fgets(line, sizeof line, stdin)) {
-    char *f[10]; int nf = 0; char *tok = strtok(line, " \n");
-    while (tok && nf < 10) { f[nf++] = tok; tok = strtok(NULL, " \n"); }
+    char *f[80]; int nf = 0; char *tok = strtok(line, " \n");
+    while (tok && nf < 80) { f[nf++] = tok; tok = strtok(NULL, " \n"); }
     if (nf == 0) { printf("\n"); continue; }
     if (!strcmp(f[0], "leaf") && nf >= 3) {
       if (!strcmp(f[1], "ibc")) printf("%x", sexp_utf8_initial_byte_count((int) parse_z(f[2])));
@@ -119,6 +119,22 @@ int main(int argc, char **argv) {
       b2 = mkbytes(buf2, n2); s2 = mkstr(b2, parse_z(f[5]), parse_z(f[6]), 0);
       r = sexp_list2(ctx, s, s2);
       r = sexp_string_concatenate_op(ctx, NULL, 2, r, SEXP_FALSE);
+      if (sexp_exceptionp(r)) printf("ERR range");
+      else { printf("OK %lx ", (long) sexp_string_size(r)); prstore(sexp_string_bytes(r)); }
+    } else if (!strcmp(f[0], "join") && nf >= 5 && nf == 5 + 3 * (int) parse_z(f[1])) {
+      /* join <n> <sepstore|#> <off> <size> {<store> <off> <size>}*n : sexp_string_concatenate_op(list, sep) */
+      int k = (int) parse_z(f[1]);
+      r = SEXP_NULL;
+      for (int j = k - 1; j >= 0; j--) {
+        int n = parse_bytes(f[5 + 3 * j], buf, sizeof buf);
+        b = mkbytes(buf, n); s = mkstr(b, parse_z(f[6 + 3 * j]), parse_z(f[7 + 3 * j]), 0);
+        r = sexp_cons(ctx, s, r);
+      }
+      if (strcmp(f[2], "#")) {
+        int n2 = parse_bytes(f[2], buf2, sizeof buf2);
+        b2 = mkbytes(buf2, n2); s2 = mkstr(b2, parse_z(f[3]), parse_z(f[4]), 0);
+      } else s2 = SEXP_FALSE;
+      r = sexp_string_concatenate_op(ctx, NULL, 2, r, s2);
       if (sexp_exceptionp(r)) printf("ERR range");
       else { printf("OK %lx ", (long) sexp_string_size(r)); prstore(sexp_string_bytes(r)); }
     } else if (!strcmp(f[0], "mk") && nf == 3) {
